@@ -32,7 +32,8 @@ MANIFEST = {
     "note": "Trusted: TLC, the font builders of the harness, the JSON encoding (names as byte lists). The law accepts "
             "both readings where the property is silent (invalid names kept or replaced, a short TrueType names list "
             "used or ignored, fi/ij named as ligature or decomposed, cmap or GSUB source for an inferred name). "
-            "Glyph-list names are checked for 9 code points only.",
+            "Glyph-list names are checked for 9 code points only. Dedicated generation runs cover k-way name collisions, "
+            "ligature sets with ligatures abandoned at any component, and cmap formats 4/12/6/0 (Unicode and Mac) with BMP and astral codes.",
     "technique": "TLA+ model checking (TLC) of Names.tla/NamesPS.tla + trace validation of recorded "
                  "MakeGlyphNames/EnsureGlyphNames/MakeSimple/PostScriptName answers against NamesTrace.tla",
 }
@@ -258,41 +259,41 @@ def _generate(ctx):
                 cases.append(c)
 
     w = 4
-    ntr = ctx.pick(280, 3000)
+    ntr = ctx.pick(200, 3000)
     take(ctx.tlc("Names", cfg="NamesGen.cfg", workers=w, simulate=ntr, depth=80, timeout=1500,
                  label="Names generation (simulate, 6 glyphs)"), "generation")
     # a smaller alphabet makes collisions between given names, glyph-list names and ligature names frequent
-    take(ctx.tlc("Names", cfg="NamesG2.cfg", workers=w, simulate=ctx.pick(160, 1500), depth=80, timeout=1500,
+    take(ctx.tlc("Names", cfg="NamesG2.cfg", workers=w, simulate=ctx.pick(120, 1500), depth=80, timeout=1500,
                  files={"NamesG2.cfg": _cfg("NamesGen.cfg", Codes="{105, 106, 307}", MaxN="5", MaxRules="3")},
                  label="Names generation (simulate, i/j/ij alphabet)"), "generation (small alphabet)")
     # few rule types and glyphs: rules often share a subtable and compete for one target or form chains
-    take(ctx.tlc("Names", cfg="NamesG5.cfg", workers=w, simulate=ctx.pick(120, 1000), depth=80, timeout=1500,
+    take(ctx.tlc("Names", cfg="NamesG5.cfg", workers=w, simulate=ctx.pick(100, 1000), depth=80, timeout=1500,
                  files={"NamesG5.cfg": _cfg("NamesGen.cfg", Codes="{65}", MaxN="4", MaxRules="3", RuleTypes="{1, 3}",
                                             PoolSel='"tiny"')},
                  label="Names generation (simulate, shared subtables)"), "generation (shared subtables)")
     # collision multiplicity: 3..5 glyphs share one text / one rule source while "A", "A.1", "A.2",
     # "A.alt1", "A.alt2" may already be held by given names (k-way competition for one base name)
-    take(ctx.tlc("Names", cfg="NamesG6.cfg", workers=w, simulate=ctx.pick(120, 1000), depth=80, timeout=1500,
+    take(ctx.tlc("Names", cfg="NamesG6.cfg", workers=w, simulate=ctx.pick(100, 1000), depth=80, timeout=1500,
                  files={"NamesG6.cfg": _cfg("NamesGen.cfg", Codes="{65}", MaxN="6", MaxRules="4", RuleTypes="{1, 3}",
                                             PoolSel='"clash"', TextSel='"A"')},
                  label="Names generation (simulate, k-way name collisions)"), "generation (collisions)")
     # ligature SETS: all ligatures hang off glyph 1 in one subtable, 2..4 components, in every order of
     # nameable / abandoned at component k / nameable.  No cmap and no colliding names: a glyph is
     # either named for good or unnamed until a rule names it.
-    take(ctx.tlc("Names", cfg="NamesG7.cfg", workers=w, simulate=ctx.pick(150, 1500), depth=80, timeout=1500,
+    take(ctx.tlc("Names", cfg="NamesG7.cfg", workers=w, simulate=ctx.pick(250, 1500), depth=80, timeout=1500,
                  files={"NamesG7.cfg": _cfg("NamesGen.cfg", Codes="{}", MinN="3", MaxN="4", MinRules="2", MaxRules="4",
                                             RuleTypes="{4}", LigLens="{2, 3, 4}", LigFirst="1", PoolSel='"own"',
                                             TextSel='"none"', CmapFormats='{"4"}', Kinds='{"cff"}')},
                  label="Names generation (simulate, ligature sets)"), "generation (ligature sets)")
     # ... with single and alternate substitutions chained before, between and behind the ligatures
-    take(ctx.tlc("Names", cfg="NamesG9.cfg", workers=w, simulate=ctx.pick(100, 1000), depth=80, timeout=1500,
+    take(ctx.tlc("Names", cfg="NamesG9.cfg", workers=w, simulate=ctx.pick(80, 1000), depth=80, timeout=1500,
                  files={"NamesG9.cfg": _cfg("NamesGen.cfg", Codes="{}", MinN="3", MaxN="4", MinRules="3", MaxRules="5",
                                             RuleTypes="{1, 3, 4}", LigLens="{2, 3}", LigFirst="1", PoolSel='"own"',
                                             TextSel='"none"', CmapFormats='{"4"}', Kinds='{"cff", "ttf"}')},
                  label="Names generation (simulate, ligature sets and chained substitutions)"),
          "generation (ligature sets, chained)")
     # every cmap subtable format the library can pick as best subtable, 1..3 mappings, BMP / astral / both
-    take(ctx.tlc("Names", cfg="NamesG8.cfg", workers=w, simulate=ctx.pick(100, 800), depth=80, timeout=1500,
+    take(ctx.tlc("Names", cfg="NamesG8.cfg", workers=w, simulate=ctx.pick(80, 800), depth=80, timeout=1500,
                  files={"NamesG8.cfg": _cfg("NamesGen.cfg", Codes="{65, 307, 65536}", MaxN="3", MaxRules="1",
                                             PoolSel='"tiny"', TextSel='"none"',
                                             CmapFormats='{"4", "12", "6", "0", "0mac"}')},
